@@ -496,7 +496,7 @@ class PropertyAccesorOpcode(Param1Opcode):
                 fn: FunctionDef, index: int):
         op1 = self.param1
         prop = context.name_list[op1]
-        op = PropertyAccessorOperation(stack.pop(), prop, index)
+        op = PropertyAccessorOperation(stack.pop(), prop, index, True)
         stack.append(op)
 
 #
@@ -513,7 +513,7 @@ class AssignPropertyAccesorOpcode(Param1Opcode):
         value = stack.pop()
         node = stack.pop()
         prop = context.name_list[op1]
-        accessor = PropertyAccessorOperation(node, prop, index)
+        accessor = PropertyAccessorOperation(node, prop, index, True)
         
         op = BinaryOperation(BinaryOperationNames.ASSIGN, index)
         op.left = accessor
